@@ -52,7 +52,9 @@ def rand_table(rng, side, nrows, tok, maxtok):
         if v is not None:
             pool.append(v)
         rows.append([(1000 if side == 'R' else 0) + 3 * j + 1, v, (j * 7) % 5, None if j % 4 == 0 else 'c%d' % j])
-    idx = rng.choice([None, None, [5] * nrows, list(range(nrows, 0, -1)), ['i%d' % (j % 3) for j in range(nrows)]])
+    idx = rng.choice([None, None, [5] * nrows, list(range(nrows, 0, -1)), ['i%d' % (j % 3) for j in range(nrows)],
+                      # labels repeated among the rows with a join value only
+                      [('p%d' % (j % 2)) if rows[j][1] is not None else 'm%d' % j for j in range(nrows)]])
     return {'cols': ['id', 's', 'a', 'b'], 'rows': rows, 'index': idx, 'strcols': ['s', 'b'],
             'sdtype': rng.choice(['object', 'str'])}
 
@@ -122,7 +124,7 @@ def run_group(item):
     # refinement
     c2 = dict(base, op=ops[0], t=g['t2'])
     _, _, _, rows2 = rows_of(c2, km)
-    if A is not None and rows2 is not None:
+    if A is not None and rows2 is not None and not (ed and not base.get('sc', 1)):   # no distance without a score
         law('REFINE', 'C13', B=rows2, t2=g['t2'])
     # transposition
     ct = dict(base, op=ops[0], L=base['R'], R=base['L'], lout=base.get('rout'), rout=base.get('lout'),
@@ -141,6 +143,7 @@ def run_group(item):
     lk, rk = base.get('lkey', 'id'), base.get('rkey', 'id')
     la, ra = base.get('lattr', 's'), base.get('rattr', 's')
     fname = g['first_stage']
+    pipe_op = g.get('pipe_op', ops[0])
     try:
         if fname == 'OVERLAP':
             flt = ssj.OverlapFilter(tok, 1, '>=', allow_missing=bool(base.get('am', 0)))
@@ -154,7 +157,7 @@ def run_group(item):
                                                          allow_missing=bool(base.get('am', 0)))
         cand = flt.filter_tables(lt, rt, lk, rk, la, ra, n_jobs=g.get('n_jobs_f', 1), show_progress=False)
         M = ssj.apply_matcher(cand, 'l_' + lk, 'r_' + rk, lt, rt, lk, rk, la, ra,
-                              None if ed else tok, sim_function(meas), thr, ops[0],
+                              None if ed else tok, sim_function(meas), thr, pipe_op,
                               allow_missing=bool(base.get('am', 0)), n_jobs=g.get('n_jobs_m', 1),
                               out_sim_score=True, show_progress=False)
         if ed or meas in ('JACCARD', 'COSINE', 'DICE'):
@@ -164,10 +167,12 @@ def run_group(item):
             M = M.copy()
             M['_sim_score'] = [round(v, 4) if v == v else v for v in M['_sim_score'].tolist()]
         rowsM = record.law_rows(mcase, M, (lt, rt), with_cells=False, keymap=km)
-        cj = dict(base, op=ops[0], sc=1)
+        cj = dict(base, op=pipe_op)
         _, _, _, rowsJ = rows_of(cj, km)
         if rowsJ is not None:
-            out['laws'].append({'law': 'PIPE', 'prop': 'C07', 'meas': meas, 'op': ops[0], 't': base['t'],
+            if not base.get('sc', 1):                 # the join reports no score: key pairs only
+                rowsM = [r[:2] + [0, 0, 0] + r[5:] for r in rowsM]
+            out['laws'].append({'law': 'PIPE', 'prop': 'C07', 'meas': meas, 'op': pipe_op, 't': base['t'],
                                 'A': rowsJ, 'B': rowsM, 'first': fname})
     except Exception as exc:
         out['laws'].append({'law': 'EQ', 'prop': 'C07', 'meas': meas, 'op': ops[0], 't': base['t'],
@@ -180,7 +185,17 @@ def run_group(item):
         for f in ('POSITION', 'PREFIX', 'SIZE'):
             cf = dict(base, kind='ftab', api=f + '.filter_tables', filt=f, op='<=' if ed else '>=', sc=0, n_jobs=kjobs,
                       tok=dict(base['tok'], rs=0 if ed else 1))
-            _, _, _, frows[f] = rows_of(cf, km)
+            fobs, fres, ftabs, frows[f] = rows_of(cf, km)
+            if g.get('validate') and km is None and g['src'].startswith(('random', 'selfjoin', 'scoretie')):
+                out['api'].append(record.abstract(cf, fobs, fres, ftabs, 0))      # C04 / C14 envelope of the filter run
+        # filter_pair of the four filters on every pair of the two tables (C04 at the pair level: the pair-level
+        # token order differs from the table-level one; for edit distance the tokens are bags)
+        if g.get('validate') and km is None and g['src'].startswith('random') and (ed or gid % 3 == 0):
+            for f in ('SIZE', 'PREFIX', 'POSITION', 'SUFFIX'):
+                cp = dict(base, kind='ftab', api=f + '.filter_pair', filt=f, op='<=' if ed else '>=', sc=0, n_jobs=1,
+                          am=0, lout=None, rout=None, tok=dict(base['tok'], rs=0 if ed else 1))
+                pobs, pres, _, ptabs = record.execute_filter_pair(cp)
+                out['api'].append(record.abstract(cp, pobs, pres, ptabs, 0))
         if all(v is not None for v in frows.values()):
             out['laws'].append({'law': 'KEYSUB', 'prop': 'C14', 'meas': meas, 'op': '>=', 't': base['t'],
                                 'A': frows['POSITION'], 'B': frows['PREFIX'], 'first': 'POSITION<=PREFIX'})
@@ -215,18 +230,19 @@ def make_groups(tier, seed):
             case = {'kind': 'join', 'api': api, 'meas': record.JOINS[api], 'filt': 'NONE', 'tok': tok,
                     'L': rand_table(rng, 'L', nl, tok, 9 if big else 7), 'R': rand_table(rng, 'R', nr, tok, 9 if big else 7)}
             if api == 'overlap_join':
-                case['t'] = [rng.choice([1, 2, 3]), 1]
-                t2 = [case['t'][0] + rng.choice([1, 2]), 1]
+                case['t'] = rng.choice([[1, 1], [2, 1], [3, 1], [3, 2], [5, 2]])
+                t2 = [case['t'][0] // case['t'][1] + rng.choice([1, 2]), 1]
             else:
                 a, b = sorted(rng.sample(THS, 2), key=lambda t: t[0] / t[1])
                 case['t'], t2 = a, b
-        case.update(op='>=', ae=rng.choice([1, 1, 0]), am=rng.choice([0, 0, 1]), sc=1,
+        case.update(op='>=', ae=rng.choice([1, 1, 0]), am=rng.choice([0, 0, 1]), sc=rng.choice([1, 1, 0]),
                     lout=rng.choice([None, ['a']]), rout=rng.choice([None, ['b', 'a']]),
                     n_jobs=rng.choice([1, 1, 2, 3, 6, 7, 9]))
         first = rng.choice(['PREFIX', 'SIZE', 'POSITION']) if ed else rng.choice(['SIZE', 'PREFIX', 'POSITION', 'OVERLAP'])
         if case['meas'] == 'OVERLAP_COEFFICIENT':
             first = 'OVERLAP'
         groups.append({'case': case, 't2': t2, 'first_stage': first, 'validate': True,
+                       'pipe_op': rng.choice(['<=', '<=', '<', '='] if ed else ['>=', '>=', '>', '=']),
                        'n_jobs_f': rng.choice([1, 2, 3, 7]), 'n_jobs_m': rng.choice([1, 3, 6, 9]), 'src': 'random#%d' % gi})
     # self-joins: ONE DataFrame object passed as both tables, joined on two different string columns
     for gi in range(24 if tier == 'quick' else 120):
